@@ -543,6 +543,13 @@ pub fn dump_token(v: &Voronoi) -> String {
     for c in v.cell_face_connections() {
         feed(*c as u64);
     }
+    // what the tessellation says about itself
+    for k in 0..3 {
+        feed(v.anchor()[k].to_bits());
+        feed(v.width()[k].to_bits());
+    }
+    feed(v.dimensionality() as u64);
+    feed(v.periodic() as u64);
     format!("{:016x}", h)
 }
 
